@@ -55,7 +55,9 @@ type obs struct {
 	Err  string   `json:"err,omitempty"`
 }
 
-// error enum - must agree with coq/theories/C04/Common.v and props/c04.py
+// error enum - must agree with coq/theories/C04/Common.v and props/c04.py.  The fine class is a DIAGNOSTIC read off the failure
+// text; a failure whose text is not recognised is reported as eOther = the generic failure class, which the comparison
+// (Corr.v code_compat) accepts wherever the model predicts a failure of any class: a reworded message is not a disagreement.
 const (
 	eOK            = 0
 	eShape         = 1  // wrong denoms / wrong number of coins
